@@ -25,6 +25,13 @@ def concretise(n):
     return n["pre"] + out
 
 
+def substitute(name, root):
+    """placeholders of the segment alphabet: %P = the root's parent path, %L = its last component, %S = a sibling that extends that name"""
+    ab = os.path.abspath(root)
+    parent, last = os.path.dirname(ab).strip("/"), os.path.basename(ab)
+    return name.replace("%P", parent or "srv").replace("%S", (last or "www") + "-private").replace("%L", last or "www")
+
+
 def comps_of(path):
     return [c for c in path.split(os.sep) if c != ""]
 
@@ -49,10 +56,10 @@ def run(ctx):
                 "captures and random unicode; distinct = (root, name) pairs; non-trivial = the name has an absolute-looking prefix, a '..' segment or a leading empty segment")
     ctx.assumptions += ["the root is trusted and normalised with os.path.abspath by the harness; containment is judged on path components", "POSIX os.path semantics (this platform)"]
     if ctx.quick:
-        consts = dict(SegAlpha='{"..", ".", "", "a", "b c", "...", "..a", "C:", "~"}', MaxSegs=3, Seps="<-SepsDef",
+        consts = dict(SegAlpha='{"..", ".", "", "a", "b c", "...", "..a", "C:", "~", "%P", "%L", "%S"}', MaxSegs=3, Seps="<-SepsDef",
                       AbsPrefixes="<-PrefQuick", LongAlpha='{"..", "", "a"}', LongMax=5)
     else:
-        consts = dict(SegAlpha='{"..", ".", "", "a", "b c", "..a", "C:"}', MaxSegs=4, Seps="<-SepsDef",
+        consts = dict(SegAlpha='{"..", ".", "", "a", "b c", "..a", "C:", "%P", "%L", "%S"}', MaxSegs=4, Seps="<-SepsDef",
                       AbsPrefixes="<-PrefThorough", LongAlpha='{"..", "", "a", "."}', LongMax=6)
     base = "NEXT Next\nCONSTANTS\n" + "".join((" %s <- %s\n" % (k, v[2:]) if str(v).startswith("<-") else " %s = %s\n" % (k, v)) for k, v in consts.items())
     wd = T.workdir("c17")
@@ -70,7 +77,7 @@ def run(ctx):
             rootc.append(comps_of(os.path.abspath(root)))
             o_r, c_r = [], []
             for n in names:
-                s = concretise(n)
+                s = substitute(concretise(n), root)
                 o, c = outcome(H, root, s)
                 o_r.append(o)
                 c_r.append(c)
@@ -123,8 +130,8 @@ def run(ctx):
                 bad = to_json(tr[-1]["state"].get("bad", []))
                 for b in bad[:3]:
                     n += 1
-                    nm = concretise(b["name"]) if isinstance(b["name"], dict) else b["name"]
                     rootname = roots[b["root"] - 1] if b["root"] else "(raw-name row)"
+                    nm = substitute(concretise(b["name"]), rootname) if isinstance(b["name"], dict) else b["name"]
                     if b["out"] == -1:
                         ctx.fail("path_join_safe(%r, %r) raises %s, not ValueError" % (rootname, nm, b["comps"]), dict(root=rootname, name=nm))
                     else:
